@@ -4,9 +4,10 @@
 (* summary the independent parser records of it (cfkit FACTS.md 7.4):      *)
 (*   pool     kind of every constant pool slot, slot 0 first; "-" for      *)
 (*            slot 0 and for the unusable slot after a Long / Double       *)
-(*   uses     <<index, expected kinds>> for every index field of the file  *)
-(*            (inside and outside the pool); "0" among the kinds where the *)
-(*            format allows index 0                                        *)
+(*   uses     <<expected kinds, indices>>: every index field of the file   *)
+(*            (inside and outside the pool), grouped by the kinds the      *)
+(*            place expects; "0" among the kinds where the format allows   *)
+(*            index 0                                                      *)
 (*   lengths  <<declared, measured>> for every attribute_length,           *)
 (*            code_length and Utf8 length                                  *)
 (*   limits   cp_count, numbers of members, largest code_length, file      *)
@@ -31,12 +32,13 @@ PoolOK(pool) ==
         /\ (pool[i] \in TwoSlot => i + 1 <= Len(pool) /\ pool[i + 1] = "-")
         /\ (pool[i] = "-" => pool[i - 1] \in TwoSlot)
 
-UseOK(pool, u) ==
-    LET idx == u[1]  exp == RangeOf(u[2]) IN
+UseOK(pool, idx, exp) ==
     IF idx = 0 THEN "0" \in exp
     ELSE /\ idx >= 1 /\ idx < Len(pool)          \* in range: 1 .. constant_pool_count - 1
          /\ pool[idx + 1] # "-"                  \* not the second slot of a long / double
          /\ pool[idx + 1] \in exp                \* of an expected kind
+
+GroupOK(pool, grp) == \A j \in DOMAIN grp[2] : UseOK(pool, grp[2][j], RangeOf(grp[1]))
 
 LengthsOK(lengths) == \A i \in DOMAIN lengths : lengths[i][1] = lengths[i][2]
 
@@ -49,13 +51,11 @@ LimitsOK(lim, pool) ==
 
 WellFormed(raw) ==
     /\ PoolOK(raw.pool)
-    /\ \A i \in DOMAIN raw.uses : UseOK(raw.pool, raw.uses[i])
+    /\ \A i \in DOMAIN raw.uses : GroupOK(raw.pool, raw.uses[i])
     /\ LengthsOK(raw.lengths)
     /\ LimitsOK(raw.limits, raw.pool)
 
 (* first offending row, for diagnostics: 0 if none *)
-BadUse(raw) == IF \A i \in DOMAIN raw.uses : UseOK(raw.pool, raw.uses[i]) THEN 0
-               ELSE CHOOSE i \in DOMAIN raw.uses : ~UseOK(raw.pool, raw.uses[i])
 BadLength(raw) == IF LengthsOK(raw.lengths) THEN 0
                   ELSE CHOOSE i \in DOMAIN raw.lengths : raw.lengths[i][1] # raw.lengths[i][2]
 =============================================================================
